@@ -4,6 +4,7 @@ import (
 	"fmt"
 	"go/token"
 	"go/types"
+	"math"
 	"unicode/utf8"
 	"unsafe"
 
@@ -399,7 +400,21 @@ func (ip *Interp) conv(dst, src types.Type, x Value) Value {
 				}
 				return Const(dw, uint64(f))
 			}
-			ip.ex.endPath("unsupported", "float to integer conversion of a symbolic value")
+			// in range: truncation; out of range (or NaN) the result is implementation-specific
+			_, dSigned, _, _ := basicInfo(ud)
+			var lo, hi float64
+			if dSigned {
+				lo, hi = -math.Ldexp(1, dw-1), math.Ldexp(1, dw-1)
+			} else {
+				lo, hi = 0, math.Ldexp(1, dw)
+			}
+			tr := ts.FRound(t, 0)
+			cLo, cHi := Const(int(t.w), fbits(lo, t.w)), Const(int(t.w), fbits(hi, t.w))
+			inRange := ts.BAnd(ts.FCmp(OpFLe, cLo, tr), ts.FCmp(OpFLt, tr, cHi))
+			if !ip.ex.Branch(inRange) {
+				ip.ex.endPath("unsupported", "float to integer conversion of a symbolic value outside the integer's range")
+			}
+			return ts.FToI(t, dw, dSigned)
 		case isBool(ud) && isBool(us):
 			return t
 		}
